@@ -58,6 +58,12 @@ CLAIMED = {
     text='Generated geometries (rectangular with random spacings x 4 conventions x 3 atmosphere types x metres/feet x 3 block orders x case, random surfaces below/on/above layer boundaries, wells, specified centres incl. ones on a coordinate axis, layers centred on zero, tilt and permeability angle, coordinates near the 10-column limit) and shipped geometries with refined/rotated/translated/reduced derivatives are written by the real writer and re-read: the re-read model must equal the projection of the original through the file precision, the block and connection name lists must be identical, a second write must be byte-identical, and for feet the node records of the file itself are re-parsed by own column arithmetic and must hold metres/0.3048 under a FEET header. Files emitted by an own Fortran-style writer (keyword variants, blank flags and layer centres, E styles) must be decoded to the emitted model.',
     note='Trusted: layout transcribed from doc/source/mulformat.rst in vf/props/c03.py emit_geometry(), vf/oracle/fortran_writer.py. Right-justified names only. Failures while *building* derived geometries are reported as foreign observations for C10, not as round-trip violations.',
     design='DESIGN.md §3 C03'),
+
+ 'C01': dict(
+    technique='runtime round-trip monitor: generated data-object descriptors built through the public API, model projected through the carrying field formats, byte identity of write/read cycles for main, mesh and extra-precision files, independent Fortran-style emitter in arbitrary section order, real files',
+    text='Descriptors covering both flavours, any subset of the 23 section kinds, list lengths on both sides of the 4- and 8-per-line boundaries, table generators with and without enthalpy, 0-13 default incons, None in optional fields, mesh in file / MESH / MESHA+MESHB and extra precision off / on / echoed are turned into t2data objects, written by the real writer, re-read by the real reader and compared field by field with the descriptor projected through the format of each carrying field (exact equality), including the section order; w2 must equal w1 up to trailing blanks and w3, w4 must be byte-identical to w2 for every file written. Independently, the same descriptors are rendered by an own Fortran-style emitter (upper-case E and 1P reals, (A3,I2) names, own record structure, random legal section order) and the reader must return the emitted model. The real files under tests/data run through the same cycle. Every record written is re-sliced in situ by the C02 monitor and the read_/write_ methods reached are counted.',
+    note='Trusted: the format tables (column positions) as given; vf/gen/datacase.py, expected() and emit_fortran() in vf/props/c01.py. Domain (DESIGN.md): values fit their fields; extra-precision subsets closed under dependency (ELEME needs ROCKS, CONNE needs ELEME), non-empty, and not covering the mesh when the mesh is external; in echo mode the echoed sections of the main file are excluded from the w1/w2 comparison (legitimate double rounding); short output and history requests only with an in-file mesh.',
+    design='DESIGN.md §3 C01'),
 }
 
 def main():
